@@ -474,6 +474,8 @@ def run_c05(pid, tier):
     addcase("|@(n + { let q: &'static str = \"ab\"; q.len() })' )", ["|%d' )" % (a["n"] + 2) for a in ARGSETS], "tick")
     # fragments that span lines, with blanks / tabs right before a line break inside a string literal
     addcase("|@(\"x  \n y \t\nz\") @format!(\"{} \n{}\t\n\", n, n)|", ["|x  \n y \t\nz %d \n%d\t\n|" % (a["n"], a["n"]) for a in ARGSETS], "doc")
+    # an expression that ends its line is not continued by a `.member` at the start of the next one
+    addcase("|@s\n.len()|@n\n\t.count_ones() @xs.len()\r\n  .max(1)", ["|%s\n.len()|%d\n\t.count_ones() %d\r\n  .max(1)" % (esc(a["s"]), a["n"], len(a["xs"])) for a in ARGSETS], "doc")
     # a bare string literal is an expression like any other: rendered through ToHtml, once
     addcase("|@\"we're <open>\" @\"R&D\".", ["|we&#39;re &lt;open&gt; R&amp;D."] * len(ARGSETS), "doc")
     addcase("|@for _i in 0..3 {@bump(),}", ["|%s" % "".join("%d," % (3 * k + j + 1) for j in range(3)) for k in range(3)], "once")
@@ -583,7 +585,7 @@ def run_c13(pid, tier):
         # an imported name that ends in this template's own function name, one that begins with it, and the name itself from another module
         if i % 8 == 0: uses += ["crate::own::base_d%d_html" % i, "crate::own::d%d_html_v2" % i, "crate::own::d%d_html as d%d_alias" % (i, i)]
         rng.shuffle(uses)
-        lifetimes = rng.choice(["<'a>", "<'a, 'b>", "<'a,'b>", "< 'a>"]) if need_a or rng.random() < 0.2 else ""
+        lifetimes = rng.choice(["<'a>", "<'a, 'b>", "<'a,'b>", "< 'a>", "<'a, 'unused, 'z>"]) if need_a or rng.random() < 0.3 else ""
         open_ws = rng.choice(["", " ", "\n  "]); close_ws = rng.choice(["", " ", "\n"])
         src = "".join("@use %s;\n" % u for u in uses) + "@" + lifetimes + "(" + open_ws + sep.join(params) + close_ws + ")\n" + body
         cases.append(dict(canon=src.encode(), perts=[], items=None, expect=[exp.encode()], args=", ".join(args), uses=uses, params=params, lifetimes=lifetimes))
@@ -609,6 +611,9 @@ def run_c13(pid, tier):
         for p in c["params"]:
             if not re.match(r"^\w+\s*:\s*Content$", p) and ("  %s,\n" % p) not in txt:
                 oracle_fail.append((c["canon"], "the declared parameter `%s` is not in the generated signature verbatim" % p, dict(code=txt[:900]))); break
+        mg = re.search(r"pub fn \w+<([^>]*)W>\(", txt)
+        if re.findall(r"'\w+", c["lifetimes"]) != (re.findall(r"'\w+", mg.group(1)) if mg else None):
+            oracle_fail.append((c["canon"], "the declared lifetime list `%s` is not the generic list of the generated function (`%s`)" % (c["lifetimes"], mg.group(1) if mg else None), dict(code=txt[:700]))); continue
         for u in c["uses"]:
             if ("use %s;\n" % u) not in txt:
                 oracle_fail.append((c["canon"], "the line `@use %s;` did not become the identical use item" % u, dict(code=txt[:800]))); break
